@@ -1,4 +1,8 @@
 import P2.Props.C01
+import P2.Props.C01b
 #print axioms P2.Props.C01.evalProg_eq
 #print axioms P2.Props.C01.evalFrom_append
 #print axioms P2.Props.C01.evalFrom_size
+#print axioms P2.Props.C01.operand_consistent_iff
+#print axioms P2.Props.C01.arithmetic_special_cases_denote
+#print axioms P2.Props.C01.vanishing_complete
